@@ -81,15 +81,27 @@ class Lock:
 
 
 def regenerate():
-    """Run every source translator: coq/Gen/*.v are rebuilt from REPO's working tree."""
+    """Run every source translator: coq/Gen/*.v are rebuilt from REPO's working tree.
+    A translator that stops (construct outside its fragment) leaves a stub in place of each of its
+    outputs that does not compile, so exactly the Coq files that depend on it - and through them the
+    properties that rely on it - fail to build; properties that do not use it are unaffected."""
     os.makedirs(os.path.join(COQ, 'Gen'), exist_ok=True)
     logs = {}
     for tool in sorted(os.listdir(os.path.join(VERIF, 'tools'))):
         if tool.startswith('gen_') and tool.endswith('.py'):
             env = dict(os.environ, VERIF_REPO=REPO)
-            rc, out = sh(['/venv/bin/python', os.path.join(VERIF, 'tools', tool), os.path.join(COQ, 'Gen')],
-                         timeout=300, env=env)
+            tpath = os.path.join(VERIF, 'tools', tool)
+            try:
+                rc, out = sh(['/venv/bin/python', tpath, os.path.join(COQ, 'Gen')], timeout=300, env=env)
+            except subprocess.TimeoutExpired:
+                rc, out = 124, 'timeout'
             logs[tool] = (rc, out[-2000:])
+            if rc != 0:
+                msg = re.sub(r'[^\w .,:;=<>/\[\]-]', ' ', out[-400:])
+                for o in re.findall(r"os\.path\.join\(OUT, '(\w+\.v)'\)", open(tpath).read()):
+                    with open(os.path.join(COQ, 'Gen', o), 'w') as f:
+                        f.write(f'(* {tool} could not translate the working tree: {msg} *)\n'
+                                'Definition translator_stopped : False := I.\n')
     return logs
 
 
@@ -102,14 +114,14 @@ def coq_build(targets=None):
             sh(['rsync', '-a', '--delete', '--exclude', 'Gen/', os.path.join(VERIF, 'coq') + '/', COQ + '/'], timeout=300)
         gl = regenerate()
         bad = {k: v for k, v in gl.items() if v[0] != 0}
-        if bad:
-            return False, 'translator failed: ' + json.dumps(bad)[:3000]
         rc, out = sh('coq_makefile -f _CoqProject -o Makefile', cwd=COQ, timeout=120)
         if rc != 0:
             return False, out
         tgt = '' if not targets else ' '.join(targets)
         rc, out = sh(f'timeout {COQ_TIMEOUT} make -j{os.cpu_count() or 4} {tgt}',
                      cwd=COQ, timeout=COQ_TIMEOUT + 30)
+        if bad:
+            out = 'translator stopped: ' + json.dumps(bad)[:3000] + '\n' + out
         return rc == 0, out
 
 
